@@ -53,7 +53,7 @@ def run_case(ctx, g, rng):
     c, how = gen.build(api, recs, d, rng)
     allp = [p for r in recs for p in spec.all_p(r)]
     allu = [u for r in recs for u in spec.all_u(r)]
-    inputs = malformed(d) + [rng.choice(gen.UNICODE), *(x + d + "1" for x in gen.SPECIAL_PREFIXES), *(x + "1" for x in gen.SPECIAL_URIS), *gen.SPECIAL_PREFIXES]
+    inputs = malformed(d) + gen.URL_HOSTILE + [rng.choice(gen.UNICODE), *(x + d + "1" for x in gen.SPECIAL_PREFIXES), *(x + "1" for x in gen.SPECIAL_URIS), *gen.SPECIAL_PREFIXES]
     inputs += [p + d + rng.choice(gen.IDS) for p in allp[:4]] + [u + rng.choice(gen.IDS) for u in allu[:4]] + allp[:2] + [u[:-1] for u in allu[:2]]
     inputs = list(dict.fromkeys(inputs))
     phases = [(inputs, None)]
